@@ -299,7 +299,7 @@ def _corrupt(level, ev, cmp):
 def binding_selftest(level, module, cfg_text, trace, tag, boundary):
     """Copies the first runs of a recorded trace, corrupts one observable, and checks that the trace
     specification reports a mismatch (and that the uncorrupted copy is accepted)."""
-    lines, cmp, done, what = [], set(), False, None
+    lines, cmp, done, what, armed = [], set(), False, None, True
     with open(trace) as f:
         for i, line in enumerate(f):
             if i > 4000:
@@ -309,15 +309,18 @@ def binding_selftest(level, module, cfg_text, trace, tag, boundary):
             ev = json.loads(line)
             if ev.get("e") == "new":
                 cmp = set(ev.get("cmp") or [])
+                armed = "c11" not in cmp
                 if done and len(lines) > 50:
                     break
             if ev.get("e") == "reset" and done and len(lines) > 50:
                 break
-            if not done:
+            if not done and (level != "conn" or armed):
                 what = _corrupt(level, ev, cmp)
                 if what:
                     done = True
                     what = "%s (line %d)" % (what, len(lines) + 1)
+            if level == "conn" and ev.get("e") == "read" and ev["res"]["k"] == "ParseError":
+                armed = True          # C11 mode compares only after the implementation's first error
             lines.append(json.dumps(ev))
     # keep whole runs / histories only
     while lines and json.loads(lines[-1]).get("e") not in ("end", "endhist") and level != "fn":
@@ -348,8 +351,9 @@ CONN_PROJ = {
     "C03": {"nopanic", "recvs", "calls", "window", "harness"},
     "C04": {"res", "popped", "whole"},
     "C06": {"wres", "calls", "sent", "pending", "offered"},
-    "C11": {"res", "popped", "pending", "sent", "wres", "files", "leak"},
-    "C12": {"files", "leak"},
+    # C11 is judged relationally (c11rel: after-error connection vs a new connection on the same input)
+    "C11": {"c11rel", "leak"},
+    "C12": {"files_rel", "leak"},      # relational: judged on the implementation's own completion events
     "C13": {"sent", "pending", "wres", "popped"},
 }
 
@@ -583,7 +587,8 @@ CHECK_DEADLOCK FALSE
 
 # first-divergence kinds that belong to each property's projection
 SRV_PROJ = {
-    "C07": r"^(bytes:|sweep:in-flight|token:|yield:|capacity:accepted|apierr:)",
+    # C07 is judged on the clients' own receipts (own:*) plus the mechanism-specific divergences
+    "C07": r"^(own:|sweep:in-flight|token:|capacity:accepted|apierr:)",
     "C08": r"^(ready:|batch:|pollerr:|apierr:|bytes:missing|bytes:differ|yield:|write:|invariant|hang)",
     "C09": r"^(pollerr:|apierr:|ready:|sweep:dead|fds:count|batch:|yield:|bytes:missing|hang)",
     "C10": r"^(capacity:|fds:|sweep:|eof:|bytes:|pollerr:)",
@@ -789,6 +794,12 @@ def srv_property(pid, tier, seed, models, drivers, assumptions, design_ref):
                 if not re.search(SRV_PROJ[pid], kind_):
                     oop += 1
                     continue
+                if pid == "C18":
+                    # C18 speaks about polls after the signal; what diverges before it belongs to others
+                    kills = [i for i, e in enumerate(evs) if e["e"] == "kill"]
+                    if not kills or m.get("step", 0) < kills[0]:
+                        oop += 1
+                        continue
                 hit = [k for k in known if re.search(k["signature"], sig)]
                 if hit:
                     known_hits.append((hit[0], sig))
